@@ -9,6 +9,7 @@ import CfVerif.Proofs.C14Lh
 import CfVerif.Proofs.C14Deck
 import CfVerif.Proofs.C14Misc
 import CfVerif.Proofs.C14Yaml
+import CfVerif.Proofs.C14State
 namespace CfVerif.C14
 open CfVerif
 
@@ -181,6 +182,39 @@ theorem gen_param_file : Gen.C14.pfWriteData = ["ParamFileManager.TYPE_ID: Param
       "(id, param) in input_data.items()"] ∧
     Gen.C14.pfReadReturn = ["persistent_params", "get_data(data[ParamFileManager.PARAMS_ID])", "{}"] ∧
     Gen.C14.pfStateType = ["namedtuple('PersistentParamState', 'is_stored default_value stored_value')"] := by decide
+
+/-- what a long-lived element object re-initialises when an update starts, what `disconnect` clears and where
+`valid` is assigned while a reply is handled (the stateful model `i2cStep` / `owStep` reads the `*UpdateInit` lists) -/
+theorem gen_state_i2c : Gen.C14.i2cUpdateGuard = "not self._update_finished_cb" ∧
+    Gen.C14.i2cUpdateInit = ["self._update_finished_cb = update_finished_cb", "self.valid = False"] ∧
+    Gen.C14.i2cDisconnect = ["self._update_finished_cb = None", "self._write_finished_cb = None"] ∧
+    Gen.C14.i2cNewDataTests = ["mem.id == self.id", "addr == 0", "data[0:4] == EEPROM_TOKEN", "self.elements['version'] == 0",
+      "self.elements['version'] == 1", "self._update_finished_cb", "addr == 16", "done",
+      "self._checksum256(data[:len(data) - 1]) == data[len(data) - 1]", "self._update_finished_cb"] ∧
+    Gen.C14.i2cNewDataStateAssigns = ["done = False", "done = True", "self.datav0 = data", "self.valid = False",
+      "self._update_finished_cb = None", "done = True", "self.valid = True", "self._update_finished_cb = None"] ∧
+    Gen.C14.i2cInit = ["self._update_finished_cb = None", "self._write_finished_cb = None", "self.elements = {}", "self.valid = False"] := by
+  decide
+theorem gen_state_ow : Gen.C14.owUpdateGuard = "not self._update_finished_cb" ∧
+    Gen.C14.owUpdateInit = ["self._update_finished_cb = update_finished_cb", "self.valid = False", "self.elements = {}"] ∧
+    Gen.C14.owDisconnect = ["self._update_finished_cb = None", "self._write_finished_cb = None"] ∧
+    Gen.C14.owNewDataStateAssigns = ["self.valid = True", "self._update_finished_cb = None", "self._update_finished_cb = None",
+      "self.valid = True", "self._update_finished_cb = None"] ∧
+    Gen.C14.owElemStateAssigns = ["self.elements[self.element_mapping[eid]]"] := by decide
+/-- the other parsed elements that keep results between reads re-initialise them when a read starts -/
+theorem gen_state_others : Gen.C14.locoUpdateInit = ["not self._update_finished_cb", "self._update_finished_cb = update_finished_cb",
+      "self.anchor_data = []", "self.nr_of_anchors = 0", "self.valid = False"] ∧
+    Gen.C14.loco2IdListInit = ["not self._update_ids_finished_cb", "self._update_ids_finished_cb = update_ids_finished_cb",
+      "self.anchor_ids = []", "self.active_anchor_ids = []", "self.anchor_data = {}", "self.nr_of_anchors = 0",
+      "self.ids_valid = False", "self.data_valid = False"] ∧
+    Gen.C14.loco2ActiveIdListInit = ["not self._update_active_ids_finished_cb",
+      "self._update_active_ids_finished_cb = update_active_ids_finished_cb", "self.active_anchor_ids = []",
+      "self.active_ids_valid = False"] ∧
+    Gen.C14.loco2DataInit = ["not self._update_data_finished_cb and self.nr_of_anchors > 0",
+      "self._update_data_finished_cb = update_data_finished_cb", "self.anchor_data = {}", "self.data_valid = False",
+      "self._nr_of_anchors_to_fetch = self.nr_of_anchors", "self._currently_fetching_index = 0"] ∧
+    Gen.C14.deckQueryInit = ["self._error = None", "self.deck_memories = {}", "self._query_complete_cb = query_complete_cb",
+      "self._query_failed_cb = query_failed_cb"] := by decide
 
 /-! ## EEPROM radio configuration -/
 
@@ -507,6 +541,73 @@ theorem param_file_rejects (l : List (Key × Y)) :
   · exact paramFileRead_of_envelope_error _ _ (envelope_type_wrong l _ _ _ _ _ x h hx)
   · exact paramFileRead_of_envelope_error _ _ (envelope_version_missing l _ _ _ _ _ x h hx hv)
   · exact paramFileRead_of_envelope_error _ _ (envelope_version_wrong l _ _ _ _ _ x y h hx hv hy)
+
+/-! ## Long-lived element objects: a completed update() reports the memory it just read, whatever happened before -/
+
+/-- EEPROM, ALL prior states (hence all op histories, see the corollary): for every object with no update pending and
+every memory content at the first and at the second read, whether the callback fires, the validity and - for a valid
+image - the fields of its version are the same as on a brand-new object. -/
+theorem i2c_update_history_free (s : I2CObj) (hs : s.pending = false) (m0 m1 : Mem) :
+    (i2cRunUpdate s m0 m1).map I2CObj.report = (i2cRunUpdate I2CObj.fresh m0 m1).map I2CObj.report := by
+  rw [i2cRunUpdate_eq s hs, i2cRunUpdate_eq I2CObj.fresh rfl]
+  exact i2cAfter_report s I2CObj.fresh _ _
+
+/-- ... in particular after ANY sequence of update / new_data (any address, any data) / write_data / disconnect calls -/
+theorem i2c_update_all_histories (ops : List I2COp) (s : I2CObj) (_h : i2cRunOps I2CObj.fresh ops = .ok s)
+    (hs : s.pending = false) (m0 m1 : Mem) :
+    (i2cRunUpdate s m0 m1).map I2CObj.report = (i2cRunUpdate I2CObj.fresh m0 m1).map I2CObj.report :=
+  i2c_update_history_free s hs m0 m1
+
+/-- the single-shot parser of the theorems above IS the update of a brand-new object -/
+theorem i2c_update_is_single_shot (m : Mem) : (i2cRunUpdate I2CObj.fresh m m).map I2CObj.parsed = i2cUpdate m := by
+  rw [i2cRunUpdate_eq I2CObj.fresh rfl]; exact i2cAfter_fresh m
+
+/-- Validity follows the checksum on EVERY re-read: whatever the object went through, an update against memory `m`
+completes exactly when the firmware layout says so, reports valid exactly when token, version and checksum of `m` match,
+and then reports the fields (and for version 1 the address) stored in `m`. -/
+theorem i2c_reupdate_valid_iff_checksum (s : I2CObj) (hs : s.pending = false) (m : Mem) (hm : 21 ≤ m.length) :
+    ∃ r, i2cRunUpdate s m m = .ok r ∧ r.2 = (i2cDecode m).called ∧
+      (r.1.valid = true ↔
+        m.take 4 = [0x30, 0x78, 0x42, 0x43] ∧
+          ((m.getD 4 0 = 0 ∧ byteSum (m.take 15) % 256 = (m.getD 15 0).toNat) ∨
+           (m.getD 4 0 = 1 ∧ byteSum (m.take 20) % 256 = (m.getD 20 0).toNat))) ∧
+      (r.1.valid = true → r.1.fields = (i2cDecode m).fields ∧
+        (∀ f, r.1.fields = some f → f.1 = 1 → r.1.address.map Int.toNat = (i2cDecode m).address)) := by
+  obtain ⟨r, h1, h2, h3, h4⟩ := i2c_reupdate_aux s hs m hm
+  exact ⟨r, h1, h3, by rw [h2]; exact i2cDecode_valid m, h4⟩
+
+/-- an update that never completes (version byte >= 2, or an exception) leaves the object pending: further update()
+calls are ignored until `disconnect()`, which always makes the object ready again -/
+theorem i2c_pending_blocks_and_disconnect_clears (s : I2CObj) :
+    (s.pending = true → i2cStep s .update = .ok (s, [])) ∧
+    (∃ s', i2cStep s .disconnect = .ok (s', []) ∧ s'.pending = false) := by
+  refine ⟨fun h => by simp [i2cStep, h], ⟨_, rfl, rfl⟩⟩
+
+/-- 1-wire (with fixes/D121-c14.patch: `update()` also re-initialises `elements`): for ALL prior states and memory
+contents the WHOLE object after the read - pins, vid, pid, elements, validity, pending flag - and whether the callback
+fired are those of a brand-new object. -/
+theorem ow_update_history_free (s : OWObj) (hs : s.pending = false) (m0 m1 : Mem) :
+    owRunUpdate s m0 m1 = owRunUpdate OWObj.fresh m0 m1 := ow_update_history_free_aux s hs m0 m1
+
+theorem ow_update_all_histories (ops : List OWOp) (s : OWObj) (_h : owRunOps OWObj.fresh ops = .ok s)
+    (hs : s.pending = false) (m0 m1 : Mem) : owRunUpdate s m0 m1 = owRunUpdate OWObj.fresh m0 m1 :=
+  ow_update_history_free_aux s hs m0 m1
+
+/-- ... and it is the single-shot parser of the 1-wire theorems above: round trip, layout and validity <=> CRCs hold
+for every re-read on a long-lived object. -/
+theorem ow_reupdate_is_single_shot (s : OWObj) (hs : s.pending = false) (m : Mem) :
+    (owRunUpdate s m m).map OWObj.parsed = owUpdate m := ow_reupdate_aux s hs m
+
+/-- D121 (the code as it is in /repo today: `update()` does not touch `elements`): a valid read of
+{'Board name': 'N', 'Board revision': 'R'} followed by a valid read of a memory holding only {'Board name': 'M'}
+would need `elements` to start empty; with the prior elements kept the TLV walk yields both. -/
+theorem ow_stale_elements_counterexample :
+    owTlv 3 [1, 1, 0x4D] [(1, [0x4E]), (2, [0x52])] = .ok [(1, [0x4D]), (2, [0x52])] ∧
+    owTlv 3 [1, 1, 0x4D] [] = .ok [(1, [0x4D])] := by decide
+
+example : i2cRunUpdate ⟨some (1, 80, 2, 0, 0), some 5, true, false, none⟩
+    ([48, 120, 66, 67, 0, 80, 2, 0, 0, 0, 0, 0, 0, 0, 0, 0x80] ++ List.replicate 8 0) [] =
+    .ok (⟨some (0, 80, 2, 0, 0), some 5, false, false, none⟩, true) := by decide
 
 example : i2cImage { version := 1, channel := 80, speed := 2, pitch := 0, roll := 0x3f800000, address := some 0xE7E7E7E7E7 } =
     .ok [48, 120, 66, 67, 1, 80, 2, 0, 0, 0, 0, 0, 0, 128, 63, 231, 231, 231, 231, 231, 194] := by decide
